@@ -189,6 +189,13 @@ var (
 //   - https://www.rfc-editor.org/rfc/rfc9110.html#name-content-negotiation-field-f
 //   - https://www.rfc-editor.org/rfc/rfc9110.html#name-content-negotiation-fields
 func normalizeOrderInsensitiveWithQValues(value string) string {
+	// A member with q=0 means "not acceptable". Without a wildcard in the list
+	// that equals leaving the member out; next to a wildcard it does not
+	// ("*, gzip;q=0" excludes gzip, "*" does not), so there it is kept.
+	return normalizeQValues(value, strings.Contains(value, "*"))
+}
+
+func normalizeQValues(value string, hasWildcard bool) string {
 	type qualityValue struct {
 		main   string                 // the main value (e.g., "text/html")
 		q      unique.Handle[float64] // the quality value (q=0.8); default is 1.0
@@ -196,10 +203,6 @@ func normalizeOrderInsensitiveWithQValues(value string) string {
 	}
 	parts := slices.Collect(TrimmedCSVSeq(value))
 	qualityParts := make([]qualityValue, 0, len(parts))
-	// A member with q=0 means "not acceptable". Without a wildcard in the list
-	// that equals leaving the member out; next to a wildcard it does not
-	// ("*, gzip;q=0" excludes gzip, "*" does not), so there it is kept.
-	hasWildcard := strings.Contains(value, "*")
 outer:
 	for i := range parts {
 		part := parts[i]
@@ -217,8 +220,8 @@ outer:
 						q = zeroQValue
 						continue
 					}
-					if qRaw == "0" || qRaw == "0.0" {
-						continue outer // skip this part, as it has q=0
+					if qVal, err := strconv.ParseFloat(qRaw, 64); qRaw == "0" || qRaw == "0.0" || (err == nil && qVal == 0) {
+						continue outer // skip this part, as it has q=0 (in any spelling: 0.00, 0.000)
 					}
 					if qVal, err := strconv.ParseFloat(qRaw, 64); err == nil {
 						q = unique.Make(
@@ -239,6 +242,12 @@ outer:
 			q:      q,
 			params: params,
 		})
+	}
+
+	if len(qualityParts) == 0 && len(parts) > 0 && !hasWildcard {
+		// Every member is refused. That is not the same as sending no field at
+		// all (which accepts anything), so the members are kept after all.
+		return normalizeQValues(value, true)
 	}
 
 	// Sort by quality value, then by number of wildcards in main,
